@@ -61,6 +61,26 @@ class RichLevel(_enum.IntEnum):
     HIGH = 2**40
 
 
+class AppDateTime(datetime.datetime):
+    pass
+
+
+class AppDate(datetime.date):
+    pass
+
+
+class AppTime(datetime.time):
+    pass
+
+
+class AppComplex(complex):
+    pass
+
+
+class AppSet(set):
+    pass
+
+
 def default_a(o):
     if isinstance(o, Custom):
         return {"custom": o.v}
@@ -99,7 +119,27 @@ def plan(tier, seed):
 
 def gen_rich(rng, which):
     """Returns (value, expected decoded image or callable checker)."""
-    r = rng.randrange(15)
+    r = rng.randrange(17)
+    if r == 16 and which == "c":
+        r = 15  # (json_default 'c' gives sets and complex numbers its own encoding)
+    if r == 15:
+        # application subclasses of the documented types
+        k = rng.randrange(4 if which != "c" else 3)
+        if k == 0:
+            d = AppDateTime(rng.randint(1, 9999), rng.randint(1, 12), rng.randint(1, 28), rng.randint(0, 23), rng.randint(0, 59), rng.randint(0, 59),
+                            rng.choice([0, 7, 999999]), tzinfo=rng.choice([None, datetime.timezone.utc, datetime.timezone(datetime.timedelta(minutes=-150))]))
+            return d, d.isoformat()
+        if k == 1:
+            d = AppDate(rng.randint(1, 9999), rng.randint(1, 12), rng.randint(1, 28))
+            return d, d.isoformat()
+        if k == 2:
+            t = AppTime(rng.randint(0, 23), rng.randint(0, 59), rng.randint(0, 59), rng.choice([0, 5, 999999]))
+            return t, t.isoformat()
+        c = AppComplex(gen.gen_float(rng), rng.choice([0.0, 1.5, -2.0]))
+        return c, {"real": c.real, "imag": c.imag}
+    if r == 16:
+        s = AppSet(rng.sample([1, 2, 3, "a", "b", 2.5, None, True, "é"], rng.randint(0, 5)))
+        return s, ("set", set(s))
     if r == 11:
         # dataclasses (named in json_default's documentation): an object of their fields
         v = gen.gen_value(rng, 1)
